@@ -599,6 +599,52 @@ func (g *Graph) findFlags() {
 		}
 		g.flags = append(g.flags, v)
 	}
+	// derived flags: bool locals whose every definition is a constant or a
+	// (negated) copy of a pure flag (`done := !found`): reachability tracks
+	// them through the value the source flag has at the definition
+	pure := map[*types.Var]bool{}
+	for _, v := range g.flags {
+		pure[v] = true
+	}
+	for changed := true; changed; {
+		changed = false
+		byVar := map[*types.Var][]*Def{}
+		for _, d := range g.defs {
+			byVar[d.Var] = append(byVar[d.Var], d)
+		}
+		for v, ds := range byVar {
+			if pure[v] || g.addrTaken[v] {
+				continue
+			}
+			if b, ok := v.Type().Underlying().(*types.Basic); !ok || b.Kind() != types.Bool {
+				continue
+			}
+			okAll := len(ds) > 0
+			for _, d := range ds {
+				switch d.Kind {
+				case DefZero:
+				case DefPlain:
+					if d.RHS == nil {
+						okAll = false
+						break
+					}
+					if cv := g.Fn.ConstVal(d.RHS); cv != nil && cv.Kind() == 1 {
+						continue
+					}
+					if src, _ := flagCopy(g, d.RHS); src == nil || !pure[src] {
+						okAll = false
+					}
+				default:
+					okAll = false
+				}
+			}
+			if okAll {
+				pure[v] = true
+				g.flags = append(g.flags, v)
+				changed = true
+			}
+		}
+	}
 	sort.Slice(g.flags, func(i, j int) bool { return g.flags[i].Pos() < g.flags[j].Pos() })
 	for i, v := range g.flags {
 		g.flagIdx[v] = i
@@ -618,10 +664,27 @@ func (g *Graph) flagTransfer(n ast.Node, fs []byte) {
 		case DefZero:
 			fs[i] = 'f'
 		case DefPlain:
-			if cv := g.Fn.ConstVal(d.RHS); cv != nil && cv.ExactString() == "true" {
-				fs[i] = 't'
+			if cv := g.Fn.ConstVal(d.RHS); cv != nil {
+				if cv.ExactString() == "true" {
+					fs[i] = 't'
+				} else {
+					fs[i] = 'f'
+				}
+			} else if src, neg := flagCopy(g, d.RHS); src != nil {
+				val := byte('?')
+				if j, ok := g.flagIdx[src]; ok {
+					val = fs[j]
+				}
+				if neg && val != '?' {
+					if val == 't' {
+						val = 'f'
+					} else {
+						val = 't'
+					}
+				}
+				fs[i] = val
 			} else {
-				fs[i] = 'f'
+				fs[i] = '?'
 			}
 		}
 	}
@@ -878,4 +941,22 @@ func (g *Graph) WhereBranch(br *ast.BranchStmt) (Point, bool) {
 		}
 	}
 	return Point{}, false
+}
+
+// flagCopy recognises `x` and `!x` with x a local variable.
+func flagCopy(g *Graph, e ast.Expr) (*types.Var, bool) {
+	neg := false
+	e = ast.Unparen(e)
+	for {
+		u, ok := e.(*ast.UnaryExpr)
+		if !ok || u.Op != token.NOT {
+			break
+		}
+		neg = !neg
+		e = ast.Unparen(u.X)
+	}
+	if v := g.localVar(e); v != nil {
+		return v, neg
+	}
+	return nil, false
 }
